@@ -146,6 +146,13 @@ theorem assignStep_grow (b : Bool) (canon : String) (cut : Bool) (a : ActionRef)
     Grow b s (assignStep canon cut a s) := by
   unfold assignStep; split
   · exact Grow.same rfl rfl rfl
+  · split
+    · exact Grow.same rfl rfl rfl
+    · exact Grow.refl _ _
+
+theorem endExpansion_grow (b : Bool) (f : Nat) (s : St) : Grow b s (endExpansion f s) := by
+  unfold endExpansion; split
+  · exact Grow.same rfl rfl rfl
   · exact Grow.refl _ _
 
 theorem finishBuiltin_grow {b : Bool} (h : Hooks) (hg : HooksGrow b h) (canon : String) (a : ActionRef) (s2 : St) :
@@ -209,7 +216,7 @@ theorem execActionsF_grow {b : Bool} (h : Hooks) (hg : HooksGrow b h) :
   | succ f ih =>
     intro as evType s
     unfold execActionsF
-    exact foldl_actStep_grow h hg _ ih false evType as (s, false)
+    exact foldl_actStep_grow h hg _ (fun as ev s => (ih as ev s).trans (endExpansion_grow _ _ _)) false evType as (s, false)
 
 /-- **actions are append-only** (user code, `assign`, `choose`, `raise`) -/
 theorem execActions_grow {b : Bool} (h : Hooks) (hg : HooksGrow b h) (as : List ActionRef) (evType : String) (s : St) :
@@ -817,6 +824,161 @@ theorem actStep_cut_ignores_nested (h : Hooks) (nested nested' : List ActionRef 
     actStep h nested true evType acc a = actStep h nested' true evType acc a := by
   unfold actStep
   simp only [builtinStep_cut_ignores_nested h nested nested']
+
+/-! ### 5b. once the bound tripped, the rest of the expansion produces no follow-ups (`_expansion_cut`) -/
+
+/-- the send hooks never touch `_expansion_cut` -/
+structure HooksCutOK (h : Hooks) : Prop where
+  snd : ∀ e s, (h.snd e s).expCut = s.expCut
+  raise : ∀ e s, (h.sndRaise e s).expCut = s.expCut
+
+theorem enqueueQ_expCut (b : Bool) (e : Ev) (s : St) : (enqueueQ b e s).expCut = s.expCut := by
+  unfold enqueueQ; split <;> rfl
+theorem hooksFlagged_cutOK (u : UEnv) (m : Machine) : HooksCutOK (hooksFlagged u m) :=
+  ⟨enqueueQ_expCut true, enqueueQ_expCut true⟩
+theorem hooksAsyncStart_cutOK (u : UEnv) (m : Machine) : HooksCutOK (hooksAsyncStart u m) :=
+  ⟨enqueueQ_expCut false, enqueueQ_expCut false⟩
+theorem hooksAsync_cutOK (u : UEnv) (m : Machine) : HooksCutOK (hooksAsync u m) :=
+  ⟨fun e _ => enqueueQ_expCut true e _, fun e _ => enqueueQ_expCut true e _⟩
+
+/-- what `_collect_builtin_followups` does to the flag: set at the cut level, otherwise left alone -/
+theorem assignStep_expCut (canon : String) (cut : Bool) (a : ActionRef) (s : St) :
+    (assignStep canon cut a s).expCut = (cut || s.expCut) := by
+  unfold assignStep
+  cases cut with
+  | true => rfl
+  | false =>
+    simp only [Bool.false_eq_true, if_false, Bool.false_or]
+    split <;> rfl
+
+theorem finishBuiltin_expCut (h : Hooks) (hc : HooksCutOK h) (canon : String) (a : ActionRef) (s2 : St) :
+    (finishBuiltin h canon a s2).1.expCut = s2.expCut := by
+  unfold finishBuiltin
+  split
+  · rfl
+  · split
+    · split
+      · exact hc.raise _ _
+      · rfl
+    · rfl
+
+theorem endExpansion_top (s : St) : endExpansion Tables.maxActionDepth s = { s with expCut := false } := by
+  unfold endExpansion; rw [if_pos rfl]
+theorem endExpansion_below {f : Nat} (hf : f ≠ Tables.maxActionDepth) (s : St) : endExpansion f s = s := by
+  unfold endExpansion; rw [if_neg hf]
+
+/-- **the trip is recorded**: at the cut level (`_action_depth > MAX_ACTION_DEPTH`) every built-in that is
+    reached sets the flag (and, as before, produces nothing — `builtinStep_cut_ignores_nested`) -/
+theorem builtinStep_cut_trips (h : Hooks) (hc : HooksCutOK h) (nested : List ActionRef → String → St → St)
+    (evType canon : String) (a : ActionRef) (s : St) :
+    (builtinStep h nested true evType canon a s).1.expCut = true := by
+  simp [builtinStep, finishBuiltin_expCut h hc, assignStep_expCut]
+
+/-- **once the bound tripped, a `choose` produces no follow-ups**, at any level of the expansion: the
+    function that would run them is never consulted … -/
+theorem builtinStep_tripped_ignores_nested (h : Hooks) (nested nested' : List ActionRef → String → St → St)
+    (evType canon : String) (a : ActionRef) (s : St) (ht : s.expCut = true) :
+    builtinStep h nested false evType canon a s = builtinStep h nested' false evType canon a s := by
+  simp [builtinStep, ht]
+
+theorem actStep_tripped_ignores_nested (h : Hooks) (nested nested' : List ActionRef → String → St → St)
+    (evType : String) (acc : St × Bool) (a : ActionRef) (ht : acc.1.expCut = true) :
+    actStep h nested false evType acc a = actStep h nested' false evType acc a := by
+  unfold actStep
+  simp only [builtinStep_tripped_ignores_nested h nested nested' evType _ a acc.1 ht]
+
+/-- … and the `choose` itself is a no-op: its guards are not even evaluated (so it cannot fail either) -/
+theorem choose_after_trip (h : Hooks) (nested : List ActionRef → String → St → St) (evType : String)
+    (a : ActionRef) (s : St) (ht : s.expCut = true) (he : s.err = none) :
+    builtinStep h nested false evType Tables.act_CHOOSE a s = (s, false) := by
+  have h1 : Tables.act_CHOOSE ≠ Tables.act_ASSIGN := by decide
+  have h2 : Tables.act_CHOOSE ≠ Tables.act_RAISE := by decide
+  simp [builtinStep, ht, assignStep, finishBuiltin, he, h1, h2]
+
+/-- the flag through one list, for a value `v` the nested executor keeps: it only ever changes at the cut
+    level (to `true`) and where the nested executor changes it -/
+theorem builtinStep_expCut (h : Hooks) (hc : HooksCutOK h) (nested : List ActionRef → String → St → St) (v : Bool)
+    (hn : ∀ fs e s, s.expCut = v → (nested fs e s).expCut = v) (cut : Bool) (hcut : cut = true → v = true)
+    (evType canon : String) (a : ActionRef) (s : St) (hs : s.expCut = v) :
+    (builtinStep h nested cut evType canon a s).1.expCut = v := by
+  have ha : (assignStep canon cut a s).expCut = v := by
+    rw [assignStep_expCut, hs]
+    cases cut with
+    | true => rw [hcut rfl]; rfl
+    | false => rfl
+  unfold builtinStep
+  simp only
+  split
+  · exact hs
+  · rw [finishBuiltin_expCut h hc]
+    split
+    · exact ha
+    · exact hn _ _ _ ha
+
+theorem fail_expCut (s : St) (e : EErr) : (s.fail e).expCut = s.expCut := by
+  unfold St.fail; split <;> rfl
+
+theorem actStep_expCut (h : Hooks) (hc : HooksCutOK h) (nested : List ActionRef → String → St → St) (v : Bool)
+    (hn : ∀ fs e s, s.expCut = v → (nested fs e s).expCut = v) (cut : Bool) (hcut : cut = true → v = true)
+    (evType : String) (acc : St × Bool) (a : ActionRef) (hs : acc.1.expCut = v) :
+    (actStep h nested cut evType acc a).1.expCut = v := by
+  unfold actStep
+  split
+  · exact hs
+  · split
+    · exact hs
+    · split
+      · rw [fail_expCut]; exact hs
+      · exact hs
+    · exact hs
+    · split
+      · rw [fail_expCut]; exact hs
+      · exact builtinStep_expCut h hc nested v hn cut hcut evType _ a acc.1 hs
+
+theorem foldl_actStep_expCut (h : Hooks) (hc : HooksCutOK h) (nested : List ActionRef → String → St → St) (v : Bool)
+    (hn : ∀ fs e s, s.expCut = v → (nested fs e s).expCut = v) (cut : Bool) (hcut : cut = true → v = true)
+    (evType : String) : ∀ (as : List ActionRef) (acc : St × Bool), acc.1.expCut = v →
+      (as.foldl (actStep h nested cut evType) acc).1.expCut = v := by
+  intro as
+  induction as with
+  | nil => intro acc hs; exact hs
+  | cons a as ih =>
+    intro acc hs
+    simp only [List.foldl_cons]
+    exact ih _ (actStep_expCut h hc nested v hn cut hcut evType acc a hs)
+
+/-- **the trip is seen by every later sibling of the same expansion**: below the top level a set flag
+    stays set through any list, whatever it contains -/
+theorem execActionsF_tripped (h : Hooks) (hc : HooksCutOK h) :
+    ∀ (fuel : Nat), fuel ≤ Tables.maxActionDepth → ∀ (as : List ActionRef) (evType : String) (s : St),
+      s.expCut = true → (execActionsF h fuel as evType s).expCut = true := by
+  intro fuel
+  induction fuel with
+  | zero =>
+    intro _ as evType s hs
+    unfold execActionsF
+    exact foldl_actStep_expCut h hc _ true (fun _ _ _ h => h) true (fun _ => rfl) evType as (s, false) hs
+  | succ f ih =>
+    intro hle as evType s hs
+    unfold execActionsF
+    refine foldl_actStep_expCut h hc _ true (fun fs e s hs => ?_) false (fun _ => rfl) evType as (s, false) hs
+    rw [endExpansion_below (by omega)]
+    exact ih (by omega) fs e s hs
+
+/-- **a fresh top-level list expands again**: while a top-level list runs the flag is clear before every
+    one of its actions (the code's `if depth == 0: self._expansion_cut = False`; the model clears it when
+    the expansion of a top-level built-in ends, `endExpansion`), whatever happened inside the expansions
+    of the earlier ones -/
+theorem foldl_top_expCut (h : Hooks) (hc : HooksCutOK h) (evType : String) (as : List ActionRef) (acc : St × Bool)
+    (hs : acc.1.expCut = false) :
+    (as.foldl (actStep h (fun fs e s => endExpansion Tables.maxActionDepth (execActionsF h Tables.maxActionDepth fs e s))
+      false evType) acc).1.expCut = false :=
+  foldl_actStep_expCut h hc _ false (fun _ _ _ _ => by rw [endExpansion_top]) false (fun hf => by cases hf)
+    evType as acc hs
+
+theorem execActions_expCut (h : Hooks) (hc : HooksCutOK h) (as : List ActionRef) (evType : String) (s : St)
+    (hs : s.expCut = false) : (execActions h as evType s).expCut = false :=
+  foldl_top_expCut h hc evType as (s, false) hs
 
 /-! ## 6. events sent while the interpreter is idle are never dropped -/
 
